@@ -1,25 +1,100 @@
 package main
 
+// Maps: a map value is a reference m; per map type there are two heap arrays,
+//   MD.<K>.<V> : Array Int (Array K Bool)   the key set of map m
+//   MV.<K>.<V> : Array Int (Array K V)      the value stored under each key
+// A nil map (reference 0) has the empty key set. Iteration order is arbitrary.
+
 import (
 	"go/types"
 
 	"golang.org/x/tools/go/ssa"
 )
 
-// Maps are not modelled yet (DESIGN 2.2): functions using them are outside the subset.
+func (e *Enc) mapSorts(mt *types.Map) (dName, vName, kSort, vSort, dSort, vArrSort string) {
+	dName, vName = mapHeapNames(mt)
+	kSort = e.reg.sortOf(mt.Key())
+	vSort = e.reg.sortOf(mt.Elem())
+	dSort = arrSort(arrSort2(kSort, sBool))
+	vArrSort = arrSort(arrSort2(kSort, vSort))
+	heapTypeMu.Lock()
+	mapElemTypes[vName] = mt.Elem()
+	heapTypeMu.Unlock()
+	return
+}
+
+var mapElemTypes = map[string]types.Type{}
+
+func (e *Enc) mapDom(mt *types.Map, m Term, st *State) Term {
+	dName, _, kSort, _, dSort, _ := e.mapSorts(mt)
+	h := st.heapGet(e, dName, dSort)
+	return Term{app("select", h.S, m.S), arrSort2(kSort, sBool)}
+}
+
+func (e *Enc) mapVals(mt *types.Map, m Term, st *State) Term {
+	_, vName, kSort, vSort, _, vArrSort := e.mapSorts(mt)
+	h := st.heapGet(e, vName, vArrSort)
+	return Term{app("select", h.S, m.S), arrSort2(kSort, vSort)}
+}
 
 func (e *Enc) mapLen(mt *types.Map, v Term, st *State) Term {
-	panic(unsupported{"len of map"})
+	e.usedUF["maplen"] = true
+	d := e.mapDom(mt, v, st)
+	_ = d
+	t := e.havoc("maplen", sInt)
+	e.assume(Term{app(">=", t.S, "0"), sBool})
+	return t
+}
+
+func (e *Enc) mapHas(mt *types.Map, m, k Term, st *State) Term {
+	return tAnd(tNot(tEq(m, tInt(0))), Term{app("select", e.mapDom(mt, m, st).S, k.S), sBool})
+}
+
+func (e *Enc) mapGet(mt *types.Map, m, k Term, st *State) Term {
+	_, _, _, vSort, _, _ := e.mapSorts(mt)
+	return Term{app("select", e.mapVals(mt, m, st).S, k.S), vSort}
 }
 
 func (e *Enc) mapLookup(x *ssa.Lookup, st *State) {
-	panic(unsupported{"map lookup"})
+	mt := x.X.Type().Underlying().(*types.Map)
+	m := e.term(x.X)
+	k := e.term(x.Index)
+	has := e.def("maphas", e.mapHas(mt, m, k, st))
+	val := e.def("mapval", tIte(has, e.mapGet(mt, m, k, st), e.reg.zero(mt.Elem())))
+	e.assumeTyped(mt.Elem(), val, st)
+	if x.CommaOk {
+		e.vals[x] = Val{Tuple: []Val{{T: val}, {T: has}}}
+		return
+	}
+	e.vals[x] = Val{T: val}
 }
 
 func (e *Enc) mapUpdate(x *ssa.MapUpdate, st *State) {
-	panic(unsupported{"map update"})
+	mt := x.Map.Type().Underlying().(*types.Map)
+	m := e.term(x.Map)
+	k := e.term(x.Key)
+	v := e.term(x.Value)
+	e.safety("nilmap", tNot(tEq(m, tInt(0))), x.Pos())
+	dName, vName, _, _, dSort, vArrSort := e.mapSorts(mt)
+	if e.fc != nil {
+		cond := e.allowedWrite(dName, m, nil)
+		if cond.S != "true" {
+			e.oblige("frame", e.p.srcLine(x.Pos()), e.fc.frameTags(), cond, x.Pos())
+		}
+	}
+	hd := st.heapGet(e, dName, dSort)
+	hv := st.heapGet(e, vName, vArrSort)
+	st.heap[dName] = e.def(dName, tStore(hd, m, Term{app("store", app("select", hd.S, m.S), k.S, "true"), ""}))
+	st.heap[vName] = e.def(vName, tStore(hv, m, Term{app("store", app("select", hv.S, m.S), k.S, v.S), ""}))
 }
 
 func (e *Enc) makeMap(x *ssa.MakeMap, st *State) {
-	panic(unsupported{"make(map)"})
+	mt := x.Type().Underlying().(*types.Map)
+	r := e.def("newmap", st.alloc)
+	st.alloc = e.def("alloc", Term{app("+", st.alloc.S, "1"), sInt})
+	dName, _, kSort, _, dSort, _ := e.mapSorts(mt)
+	hd := st.heapGet(e, dName, dSort)
+	empty := Term{app("(as const "+arrSort2(kSort, sBool)+")", "false"), ""}
+	st.heap[dName] = e.def(dName, tStore(hd, r, empty))
+	e.vals[x] = Val{T: r}
 }
